@@ -97,6 +97,8 @@ def run(item):
     pepsolve.install_recording_wrappers()
     prog = item["prog"]
     b = pepsolve.build(prog)
+    import gc
+    gc.collect()
     out = dict(prog=prog, solves=[], note="", item=item)
     for opts in item["solves"]:
         if opts.get("edit") == "twin":          # the same program built again, to be solved through the other back-end
@@ -109,11 +111,15 @@ def run(item):
                 if prev.get("edit") not in (None, "none", "twin", "fresh-twin"):
                     apply_edit(b, prev["edit"])
         else:
+            pepsolve.CURRENT_DECL[0] = b.user_decl
             apply_edit(b, opts.get("edit", "none"))
         del pepsolve.LOG[:]
         if opts.get("wrapper") == "mosek":
-            import mosek
-            del mosek.CALLS[:]
+            try:
+                import mosek                   # the stand-in, when the check put it on the path
+                del mosek.CALLS[:]
+            except ImportError:
+                pass                           # not installed: solve() falls back to cvxpy (C14 exercises that)
         kw = dict(wrapper=opts.get("wrapper", "cvxpy"), return_primal_or_dual=opts.get("mode", "dual"),
                   verbose=opts.get("verbose", 0), solver=opts.get("solver", "CLARABEL"))
         heur = opts.get("heur", "none")
